@@ -20,11 +20,13 @@ from typing import Any
 from harness import tasks as T
 from harness.apps import VirtualClock, flush, make_app, rctx, ts_us
 from harness.common import Ctx, LeanDriver, lean_stage, thorough_rebuild, tok
+from harness.translate import programs as trp
 from harness.translate import status as tr
 
 THEOREMS = [
     "pendingScan_spec", "pendingScan_never_fresh", "runningScan_spec", "runningScan_never_live", "runningScanMem_eq_Sql",
     "stale_scan_refused", "recovered_can_complete", "recovery_run_requeues_all_taken", "take_only_scanned",
+    "live_runner_heartbeats_every_check",
 ]
 
 RUNNERS = ["rA", "rB", "wA1", "wA2"]  # wA1/wA2 are child workers whose beats are reported by their parent rA
@@ -86,7 +88,12 @@ def run_recovery(app, kind: str, race=None) -> str:
 def run(ctx: Ctx) -> None:
     from pynenc.invocation.status import InvocationStatus as S
 
-    lean_stage(ctx, tr.gen, THEOREMS)
+    def gen() -> dict[str, str]:
+        g = tr.gen()
+        g.update(trp.gen(ctx.tmp))
+        return g
+
+    lean_stage(ctx, gen, THEOREMS)
     ctx.cov["rule"] = ("seeded histories (register / claim / start / finish / heartbeat own+parent-reported / clock advance to a cut-off ±1µs / "
                        "scan / recovery run with and without a racing owner) per (backend, max_pending, dead-after) configuration; "
                        "distinct = distinct (backend, config, step kind, scan results) observations")
@@ -268,15 +275,114 @@ def run(ctx: Ctx) -> None:
                 flush(b.app)
         for k, v in nd.items():
             ctx.obligation(f"correspondence ({k}) on Mem and SQLite == Lean model", v == 0, f"{v} disagreements")
+        live_runner(ctx, clock)
     finally:
         clock.uninstall()
         drv.close()
+    for kind in ("mem", "sqlite"):
+        scan_vs_newcomer(ctx, kind)
     ctx.assumptions += [
         "timestamps are µs-exact floats under the virtual clock (datetime.timestamp and time() are correctly rounded single divisions)",
         "theorem recovery_run_requeues_all_taken assumes nobody but the recovery run re-routes an invocation that is in a *_RECOVERY status (one run of each recovery task at a time: running_concurrency=TASK)",
     ]
     if not ctx.quick:
         thorough_rebuild(ctx)
+
+
+def live_runner(ctx: Ctx, clock: VirtualClock) -> None:
+    """a live runner checks in for the global services every 30 s (default timeouts); another runner scans / recovers in
+    between; the live runner's RUNNING invocation must never be selected, a silent runner's must"""
+    from pynenc.invocation.status import InvocationStatus as S
+
+    for kind in ("mem", "sqlite"):
+        b = Back(ctx, kind, 5.0, 10.0, "live")
+        live, silent = rctx("rLive"), rctx("rSilent")
+        i_live, i_silent = b.task(1).invocation_id, b.task(2).invocation_id
+        b.o.register_runner_heartbeats(["rSilent"])
+        for i, c in ((i_live, live), (i_silent, silent)):
+            b.o.set_invocation_status(i, S.PENDING, c)
+            b.o.set_invocation_status(i, S.RUNNING, c)
+        stolen_at = None
+        silent_seen = False
+        for tick in range(90 if ctx.quick else 240):          # 45 / 120 simulated minutes
+            b.o.should_run_atomic_service(live)               # what the runner loop does on every atomic-service check
+            for dt in (1_000_000, 14_000_000, 14_999_999):
+                clock.advance(dt)
+                sel = set(b.o.get_running_invocations_for_recovery())
+                ctx.count()
+                if i_live in sel and stolen_at is None:
+                    stolen_at = tick * 30 + 1
+                silent_seen = silent_seen or i_silent in sel
+            clock.advance(1)
+        ctx.distinct((kind, "live-runner", stolen_at is None, silent_seen))
+        if stolen_at is not None:
+            ctx.report(f"live-runner-recovered[{kind}]", f"[{kind}] a runner that checks in for the global services every 30 s had its RUNNING invocation selected by the running-recovery scan after ~{stolen_at} s (timeout 600 s): its own heartbeat is not refreshed",
+                       {"backend": kind, "after_s": stolen_at})
+        if not silent_seen:
+            ctx.report(f"silent-runner-not-recovered[{kind}]", f"[{kind}] a runner silent for 45 min was never selected by the running-recovery scan", {"backend": kind})
+
+
+def scan_vs_newcomer(ctx: Ctx, kind: str) -> None:
+    """the running-recovery scan concurrently with a runner that registers its first heartbeat and then starts an invocation
+    (scheduled: SQL statements / source lines): the newcomer's invocation is never selected, a dead runner's always"""
+    from pynenc.invocation.status import InvocationStatus as S
+    from pynenc.orchestrator.mem_orchestrator import MemOrchestrator
+
+    from harness.sched_line import DeferredThreads, LineSched
+    from harness.sched_sql import SqlSched, explore
+
+    app = make_app(kind, ctx.tmp, app_id=f"c04race{kind}")
+    task = app.task(T.add)
+    o = app.orchestrator
+    defer = DeferredThreads().install()
+    if kind == "mem":
+        sched: SqlSched = LineSched(line_targets=[MemOrchestrator._get_running_invocations_for_recovery, MemOrchestrator.register_runner_heartbeats,
+                                                  MemOrchestrator._atomic_status_transition, MemOrchestrator._interanl_atomic_status_transition],
+                                    lock_modules=["pynenc.orchestrator.mem_orchestrator"])
+    else:
+        sched = SqlSched(patch=[("pynenc.util.sqlite_utils", "create_sqlite_connection"), ("pynenc.orchestrator.sqlite_orchestrator", "sqlite_conn"),
+                                ("pynenc.state_backend.sqlite_state_backend", "sqlite_conn"), ("pynenc.trigger.sqlite_trigger", "sqlite_conn"),
+                                ("pynenc.broker.sqlite_broker", "sqlite_conn")], max_steps=20000)
+    sched.install()
+    n = 0
+    try:
+        def run_one(chooser):
+            defer.pending.clear()
+            app.purge()
+            i_new, i_dead = task(1).invocation_id, task(2).invocation_id
+            o.set_invocation_status(i_dead, S.PENDING, rctx("rDead"))
+            o.set_invocation_status(i_dead, S.RUNNING, rctx("rDead"))      # rDead never sent a heartbeat
+            got: list = []
+
+            def scanner() -> None:
+                got.extend(o.get_running_invocations_for_recovery())
+
+            def newcomer() -> None:
+                o.register_runner_heartbeats(["rNew"])
+                o.set_invocation_status(i_new, S.PENDING, rctx("rNew"))
+                o.set_invocation_status(i_new, S.RUNNING, rctx("rNew"))
+
+            run = sched.run([scanner, newcomer], chooser)
+            run.meta = (i_new, i_dead, list(got))  # type: ignore[attr-defined]
+            return run
+
+        for run in explore(run_one, 2 if ctx.quick else 3, 150 if ctx.quick else 1500):
+            n += 1
+            ctx.count()
+            ctx.distinct((kind, "scan-vs-newcomer", tuple(run.choices)))
+            i_new, i_dead, got = run.meta  # type: ignore[attr-defined]
+            rep = {"backend": kind, "schedule": run.choices}
+            if run.aborted or any(run.errors):
+                ctx.report(f"scan-race-error[{kind}]", f"[{kind}] scan / newcomer raised {run.errors} aborted={run.aborted}", rep)
+                continue
+            if i_new in got:
+                ctx.report(f"scan-steals-newcomer[{kind}]", f"[{kind}] the running-recovery scan selected the invocation of a runner that registered its heartbeat BEFORE starting it (the scan is not one consistent read); schedule {run.choices}", rep)
+            if i_dead not in got:
+                ctx.report(f"scan-misses-dead[{kind}]", f"[{kind}] the scan did not select the RUNNING invocation of a runner that never sent a heartbeat (schedule {run.choices})", rep)
+    finally:
+        sched.uninstall()
+        defer.uninstall()
+    ctx.notes[f"scan_race_schedules_{kind}"] = n
 
 
 def _untoks(line: str) -> list[str]:
